@@ -493,7 +493,9 @@ def _read_healsparse_fits_file_and_degrade(filename, pixels, nside_out, reductio
             dtype_out = np.dtype(dtype_out)
             sparse_map_out = np.zeros((_pixels.size + 1)*nfine_per_cov_out,
                                       dtype=dtype_out)
-            sparse_map_out[primary] = sentinel_out
+            # Every field is blank where the map is not valid (as in degrade).
+            for key in dtype_out.names:
+                sparse_map_out[key] = sentinel_out
         elif (issubclass(dtype.type, np.integer) and (reduction in ['and', 'or'])):
             sentinel_out = sentinel
             dtype_out = dtype
